@@ -223,9 +223,12 @@ type group struct {
 	consistent bool
 }
 
-func mkGroup(r *hx.Rng, n, k int, consistent bool) *group {
+func mkGroup(r *hx.Rng, n, k int, consistent bool, ids []*big.Int) *group {
 	g := &group{n: n, k: k, consistent: consistent}
-	g.ids = distinctIDs(r, n)
+	g.ids = ids
+	if ids == nil {
+		g.ids = distinctIDs(r, n)
+	}
 	var pubs []groupsig.Pubkey
 	shares := make([][]groupsig.Seckey, n)
 	gsk := big.NewInt(0)
@@ -602,8 +605,14 @@ func main() {
 		}
 		k := model.Param.GetGroupK(n)
 		consistent := r.Intn(8) != 0
-		g := mkGroup(r, n, k, consistent)
-		existed := r.Intn(25) == 0
+		// the first six runs: floods of verify messages under the block's hash before the cast message
+		floodSize := -1
+		if run < 6 {
+			floodSize = []int{1, 10, 63, 64, 65, 200}[run]
+			consistent = true
+		}
+		g := mkGroup(r, n, k, consistent, nil)
+		existed := r.Intn(25) == 0 && floodSize < 0
 
 		// block and beacon
 		bhHash := hashOf(r.Bytes(32))
@@ -645,7 +654,23 @@ func main() {
 		// before that member's own message arrives.
 		known := make([]bool, n)
 		jg := model.NewJoindGroupInfo(mkSec(g.keys[0]), g.gpk, hashOf(r.Bytes(32)))
+		twoGroups := floodSize < 0 && r.Intn(4) == 0
+		var gA *group
+		var jgA *model.JoinedGroupInfo
+		crossM := 1 + r.Intn(n-1) // the member whose key the node lacks in group A
+		if twoGroups {
+			gA = mkGroup(r, n, k, true, g.ids)
+			jgA = model.NewJoindGroupInfo(mkSec(gA.keys[0]), gA.gpk, hashOf(r.Bytes(32)))
+			for j := 0; j < n; j++ {
+				if j != crossM {
+					jgA.AddMemberSignPK(mkID(g.ids[j]), *groupsig.GeneratePubkey(mkSec(gA.keys[j])))
+				}
+			}
+		}
 		storage := access.VerifR1NewJoinedGroupStorage(jg)
+		if twoGroups {
+			storage = access.VerifR1NewJoinedGroupStorage(jg, jgA)
+		}
 		netStub := &logical.VerifR1Net{}
 		self := model.SelfMinerInfo{}
 		self.ID = ids[0]
@@ -892,11 +917,32 @@ func main() {
 			sort.SliceStable(arr, func(i, j int) bool { return !arr[i].honest && arr[j].honest })
 		}
 		msgs = arr
+		if floodSize >= 0 {
+			// floodSize junk messages naming this block's hash, then the valid pieces of k members, all
+			// before the cast message
+			msgs = nil
+			for i := 0; i < floodSize; i++ {
+				m := mk("flood-junk", 0)
+				m.member, m.sender = -1, distinctIDs(r, 1)[0]
+				m.sig = valPoint(groupsig.Sign(mkSec(outsiderKey), bhHash.Bytes()), single(iBH, outsiderKey))
+				m.rsig = valPoint(groupsig.Sign(mkSec(outsiderKey), preRandom), single(prIdx, outsiderKey))
+				msgs = append(msgs, m)
+			}
+			cnt := 0
+			for _, j := range perm(r, n) {
+				if known[j] && cnt < k {
+					m := mk("honest", j)
+					m.honest = true
+					msgs = append(msgs, m)
+					cnt++
+				}
+			}
+		}
 
 		// ---- run on the implementation ----
 		// some runs: the first messages arrived while round0 was still busy and are replayed by round1.Start
 		nFut := 0
-		if r.Intn(4) == 0 && len(msgs) > 0 {
+		if floodSize < 0 && r.Intn(4) == 0 && len(msgs) > 0 {
 			nFut = 1 + r.Intn(len(msgs))
 			if nFut > k+2 {
 				nFut = k + 2
@@ -916,7 +962,7 @@ func main() {
 			}
 			return map[string]interface{}{"n": n, "k": k, "ids": is, "member_keys": ks, "group_secret": g.gsk.String(), "unknown_member": unknownMember,
 				"block_hash": bhHash.Hex(), "pre_random": hex.EncodeToString(preRandom), "block_exists": existed, "consistent_keys": consistent,
-				"replayed_at_start": nFut, "through_processor": procMode, "arrived_before_cast": nPre, "keys_registered_by_message": viaMsg, "faulty_registration": atk,
+				"replayed_at_start": nFut, "through_processor": procMode, "flood_under_block_hash": floodSize, "two_groups": twoGroups, "arrived_before_cast": nPre, "keys_registered_by_message": viaMsg, "faulty_registration": atk,
 				"outsider_id": outsiderID.String(), "squatted_member": squatted, "messages": ml}
 		}
 		// every message travels as the node sends it: protobuf bytes decoded by
@@ -977,12 +1023,47 @@ func main() {
 		// arriving before the cast message are kept by Processor.OnMessageVerify under their block
 		// hash, the party appears (cast message accepted), the node re-keys it and drains the kept
 		// messages, later messages are routed to it, the ended party is retired
-		procMode = nFut == 0 && r.Intn(4) == 0
+		procMode = nFut == 0 && (r.Intn(4) == 0 || floodSize >= 0)
 		var vp *logical.VerifR1Proc
 		procLog := &logical.VerifR1Logger{}
 		if procMode {
 			vp = logical.VerifR1NewProcessor(procLog)
 			nPre = r.Intn(len(msgs) + 1)
+			if floodSize >= 0 {
+				nPre = len(msgs)
+			}
+		}
+		// two-group runs: a party for a block of group A (same members, the node lacks member crossM's
+		// key there) receives messages while this group's round is collecting
+		interfere := func() {}
+		if twoGroups {
+			gidA := *groupsig.NewIDFromPubkey(gA.gpk)
+			gInfoA := model.NewGroupInfo(gidA, gA.gpk, &model.GroupInitInfo{GroupHeader: &types.GroupHeader{}, GroupMembers: ids})
+			bhA := &types.BlockHeader{Hash: hashOf(r.Bytes(32)), Height: 10, GroupId: gidA.Serialize()}
+			preA := &types.BlockHeader{Hash: hashOf(r.Bytes(32)), Height: 9, Random: r.Bytes(64)}
+			vA, _ := logical.VerifR1New(logical.VerifR1Config{Self: ids[0], Group: gInfoA, PreBH: preA, BH: bhA, Net: netStub})
+			na := 0
+			interfere = func() {
+				if vA == nil {
+					return
+				}
+				// forged in a member's name (first: the member whose key is missing in A), an outsider, garbage
+				who := g.ids[crossM]
+				switch {
+				case na > 0 && r.Intn(3) == 0:
+					who = g.ids[r.Intn(n)]
+				case na > 0 && r.Intn(3) == 0:
+					who = outsiderID
+				}
+				na++
+				cvm := &model.ConsensusVerifyMessage{BlockHash: bhA.Hash, RandomSign: groupsig.Sign(mkSec(outsiderKey), preA.Random), Id: fmt.Sprintf("A-%d-%d", run, na),
+					SignInfo: model.MakeSignInfo(bhA.Hash, groupsig.Sign(mkSec(outsiderKey), bhA.Hash.Bytes()), mkID(who), common.ConsensusVersion)}
+				vA.Update(cvm)
+				vA.Log.Take()
+				plog.Take()
+				res.Histogram["cross-group:message-about-other-group"]++
+			}
+			interfere()
 		}
 		// runs with nFut > 0: the party is still in round0 (checkBlock has announced the block hash but
 		// not finished) when the first nFut messages are handed to it: they are stored by id; then
@@ -1222,7 +1303,9 @@ func main() {
 					skipped[i] = true
 				}
 			}
-			if vp.Stored(bhHash) != stored {
+			if vp.Stored(bhHash) < stored {
+				res.Violate("C15/future-store:per-hash-dropped", fmt.Sprintf("%d verify messages naming the block's hash arrived before the cast message, only %d are kept: the later ones (among them valid pieces) are discarded unread", stored, vp.Stored(bhHash)), desc())
+			} else if vp.Stored(bhHash) != stored {
 				res.Violate("C15/processor:store-count", fmt.Sprintf("%d verify messages for the block arrived before the cast message, %d are kept", stored, vp.Stored(bhHash)), desc())
 			}
 			v.Log.Take()
@@ -1341,6 +1424,9 @@ func main() {
 				continue
 			}
 			order = append(order, i)
+			if twoGroups && r.Intn(3) == 0 {
+				interfere()
+			}
 			if closed {
 				obs[i] = [2]int{oClosed, tNone}
 				if procMode {
@@ -1378,6 +1464,13 @@ func main() {
 				if term != tNone {
 					res.Violate("C15/handler-panic-ends-party:"+strings.TrimPrefix(m.kind, "dup:"), fmt.Sprintf("message %d (%s) made the handler panic; instead of being dropped it ended the party (%s): later valid shares find no party", i, m.kind, tNames[term]), desc())
 				}
+			}
+			if m.honest && m.member >= 0 && known[m.member] && oc == oNoKey {
+				ck := "C15/valid-share-ignored:key-reads-missing"
+				if twoGroups {
+					ck = "C15/cross-group:valid-share-ignored"
+				}
+				res.Violate(ck, fmt.Sprintf("message %d: the valid share of member %d, whose sign key is registered for this group, was ignored as if no key were known (two-group run: %v)", i, m.member, twoGroups), desc())
 			}
 			if m.honest && m.member >= 0 && (oc == oBadSign || oc == oBadRand || oc == oHashMismatch) {
 				res.Violate(vkey("C15/valid-share-rejected"), fmt.Sprintf("message %d: the valid share of member %d was rejected (%s)", i, m.member, oNames[oc]), desc())
